@@ -1,5 +1,264 @@
-(** C09 — statements only (first increment). *)
-From TV Require Import Forwarding.Expected Forwarding.Proofs.
+(** C09 — Every layer sees every notification exactly once; wrappers are transparent.
+    Statements only; proofs live in Forwarding/Proofs*.v.
+
+    [gen_tables] is decoded from TVGen.Gen_forwarding, which translators/forwarding.py regenerates from the Rust source on
+    every run: one row per (implementor, trait method) of Box / Arc / Option / Vec / reload / Identity / Layered (as a
+    collector and as a subscriber) / Dispatch, plus the default bodies of the three traits.  The semantics of every object
+    below ([coll_obj], [sub_obj], [dispatch_sem], [run_case]) is *defined from these rows*, so each theorem is about the
+    code as it is in the repository under check.  Stacks ([coll]) are arbitrary trees: any number of layers, `and_then`
+    pairs, Vecs, wrappers, `None`, Identity, filter probes; workloads ([list op]) are arbitrary.
+    Scope: stacks without per-layer filters on a root collector other than `Registry` (Layered's three private flags are
+    false); the harness covers Registry roots and `Filtered` differentially. *)
+From TV Require Import Forwarding.Model Forwarding.Expected Forwarding.Spec Forwarding.Proofs.
+From Coq Require Import Permutation.
+Local Open Scope N_scope.
+
+(** ** The generated table: one obligation per (wrapper, trait, method) *)
+(** Every row has the class the hand-written expected column demands (forwarding rows forward, `None` arms answer
+    always / true / OFF, defaults are what the model mirrors, nothing was left unrecognised, no unknown method or implementor). *)
 Theorem C09_table_transparent : table_ok = true.
 Proof. exact table_transparent. Qed.
 Print Assumptions C09_table_transparent.
+
+(** ** Exactly once, inner before outer (any stack, any arguments) *)
+(** record, follows-from, event, enter, exit: the root collector, then each layer once, inner layers before outer ones. *)
+Theorem C09_once_inner_first : forall c mc ms a, In (mc, ms) notif_pairs ->
+  call (coll_obj gen_tables c) mc a = ((root_id c, mc, a) :: ents ms a (coll_recv false ms c), RUnit).
+Proof. exact once_inner_first. Qed.
+Print Assumptions C09_once_inner_first.
+
+Example C09_once_inner_first_nonvacuous :
+  let c := CLayered (SLeaf 3 unhinted) (CLayered (SPair (SLeaf 2 unhinted) (SWrap SwBox (SLeaf 1 unhinted))) (CLeaf 0 unhinted)) in
+  In (event, on_event) notif_pairs /\
+  fst (call (coll_obj gen_tables c) event (2, 0, 0)) = [(0, event, (2,0,0)); (1, on_event, (2,0,0)); (2, on_event, (2,0,0)); (3, on_event, (2,0,0))].
+Proof. split; [cbn; tauto|vm_compute; reflexivity]. Qed.
+
+(** new span: the root hands out the id; every layer then sees `on_new_span` with that id. *)
+Theorem C09_once_new_span : forall c a,
+  call (coll_obj gen_tables c) new_span a =
+    ((root_id c, new_span, a) :: ents on_new_span (a_cs a, a_id a, 0) (coll_recv false on_new_span c), RId (a_id a)).
+Proof. exact once_new_span. Qed.
+Print Assumptions C09_once_new_span.
+
+(** close: the layers hear `on_close` (each once, inner first) iff the root collector says the span closed. *)
+Theorem C09_once_close : forall c a,
+  call (coll_obj gen_tables c) try_close a =
+    if b_close (root_beh c) (a_id a)
+    then ((root_id c, try_close, a) :: ents on_close a (coll_recv false on_close c), RBool true)
+    else ([(root_id c, try_close, a)], RBool false).
+Proof. exact once_close. Qed.
+Print Assumptions C09_once_close.
+
+(** id change: the layers hear `on_id_change` iff `clone_span` of the root returned a different id. *)
+Theorem C09_once_id_change : forall c a,
+  call (coll_obj gen_tables c) clone_span a =
+    let nw := b_clone (root_beh c) (a_id a) in
+    ((root_id c, clone_span, a) ::
+       (if nw =? a_id a then [] else ents on_id_change (a_cs a, a_id a, nw) (coll_recv false on_id_change c)), RId nw).
+Proof. exact once_id_change. Qed.
+Print Assumptions C09_once_id_change.
+
+(** dispatcher registration: the root, then every layer exactly once ... *)
+Theorem C09_register_dispatch_once : forall c a, exists ids,
+  call (coll_obj gen_tables c) on_register_dispatch a =
+    ((root_id c, on_register_dispatch, a) :: ents on_register_dispatch a ids, RUnit) /\
+  Permutation ids (coll_recv false on_register_dispatch c).
+Proof. exact register_dispatch_once. Qed.
+Print Assumptions C09_register_dispatch_once.
+
+(** ... inner before outer in every stack without an `and_then` pair; in every stack at all once F18 is repaired
+    ([f18_fixed] is read off the generated row of `impl Subscribe for Layered`). *)
+Theorem C09_register_dispatch_inner_first : forall c a, f18_fixed gen_tables = true \/ pair_free c = true ->
+  call (coll_obj gen_tables c) on_register_dispatch a =
+    ((root_id c, on_register_dispatch, a) :: ents on_register_dispatch a (coll_recv false on_register_dispatch c), RUnit).
+Proof. exact register_dispatch_inner_first. Qed.
+Print Assumptions C09_register_dispatch_inner_first.
+
+Example C09_register_dispatch_inner_first_nonvacuous :
+  pair_free (CLayered (SVec [SLeaf 2 unhinted; SLeaf 3 unhinted]) (CLayered (SLeaf 1 unhinted) (CLeaf 0 unhinted))) = true.
+Proof. reflexivity. Qed.
+
+(** Known finding F18: as long as the source hands `on_register_dispatch` to a pair's outer half first,
+    rec.with(L1.and_then(L2)) tells L2 before L1. *)
+Theorem C09_F18_refuted : f18_fixed gen_tables = false ->
+  let c := CLayered (SPair (SLeaf 2 unhinted) (SLeaf 1 unhinted)) (CLeaf 0 unhinted) in
+  pair_free c = false /\
+  fst (call (coll_obj gen_tables c) on_register_dispatch arg0) <>
+    (root_id c, on_register_dispatch, arg0) :: ents on_register_dispatch arg0 (coll_recv false on_register_dispatch c).
+Proof. exact F18_refuted. Qed.
+Print Assumptions C09_F18_refuted.
+
+(** `on_subscribe` (not one of the property's notification kinds; at build time): every layer exactly once. *)
+Theorem C09_on_subscribe_once : forall c, exists ids,
+  build_log gen_tables c = ents on_subscribe arg0 ids /\ Permutation ids (coll_recv false on_subscribe c).
+Proof. exact on_subscribe_once. Qed.
+Print Assumptions C09_on_subscribe_once.
+
+(** ** Queries: outer first, each layer at most once, nobody after the first veto *)
+Theorem C09_query_outer_first_until_veto : forall c q a,
+  call (coll_obj gen_tables c) (q_meth q) a = q_out q a (until_veto (q_ans q a) (coll_ask c)).
+Proof. exact query_outer_first_until_veto. Qed.
+Print Assumptions C09_query_outer_first_until_veto.
+
+(** callsite registration is a query in the code (DESIGN §7): outer first, a `never` ends the walk.  Linear stacks (each
+    layer one recording leaf at most, however wrapped); a Vec of several layers asks all of them, a pair nests differently. *)
+Theorem C09_register_callsite_outer_first_until_never : forall c a, a = (a_cs a, 0, 0) -> linear c = true ->
+  call (coll_obj gen_tables c) register_callsite a = rc_out (rc_until (a_cs a) (coll_ask c)).
+Proof. exact register_callsite_outer_first_until_never. Qed.
+Print Assumptions C09_register_callsite_outer_first_until_never.
+
+Example C09_register_callsite_nonvacuous :
+  let c := CLayered (SLeaf 2 (beh_of [2;2] [] [] None 255 false))
+             (CLayered (SWrap SwReload (SLeaf 1 (beh_of [0;2] [] [] None 255 false))) (CLeaf 0 unhinted)) in
+  linear c = true /\
+  call (coll_obj gen_tables c) register_callsite (0,0,0) = ([(2, register_callsite, (0,0,0)); (1, register_callsite, (0,0,0))], RInt INever).
+Proof. split; vm_compute; reflexivity. Qed.
+
+(** ** A veto stops delivery to all *)
+(** What `Dispatch::event` does: the `event_enabled` round (outer first, until the first `false`), then - only if nobody
+    vetoed - the root's `event` and every layer's `on_event`, inner first. *)
+Theorem C09_dispatch_event : forall c a,
+  dispatch_sem gen_tables (call (coll_obj gen_tables c)) event a = (expected_event c a, RUnit).
+Proof. exact dispatch_event. Qed.
+Print Assumptions C09_dispatch_event.
+
+Theorem C09_veto_stops_delivery : forall c a,
+  snd (until_veto (q_ans QEvent a) (coll_ask c)) = false ->
+  forall e, In e (fst (dispatch_sem gen_tables (call (coll_obj gen_tables c)) event a)) -> snd (fst e) = event_enabled.
+Proof. exact veto_stops_delivery. Qed.
+Print Assumptions C09_veto_stops_delivery.
+
+Example C09_veto_stops_delivery_nonvacuous :
+  let c := CLayered (SLeaf 2 unhinted) (CLayered (SLeaf 1 (beh_of [] [] [false] None 255 false)) (CLeaf 0 unhinted)) in
+  snd (until_veto (q_ans QEvent (0,0,0)) (coll_ask c)) = false /\
+  fst (dispatch_sem gen_tables (call (coll_obj gen_tables c)) event (0,0,0)) = [(2, event_enabled, (0,0,0)); (1, event_enabled, (0,0,0))].
+Proof. split; vm_compute; reflexivity. Qed.
+
+(** The metadata check: after a `false` from any layer `Dispatch::enabled` is `false` (the macros then dispatch nothing). *)
+Theorem C09_enabled_veto : forall c a,
+  snd (until_veto (q_ans QEnabled a) (coll_ask c)) = false ->
+  snd (dispatch_sem gen_tables (call (coll_obj gen_tables c)) enabled a) = RBool false.
+Proof. exact enabled_veto. Qed.
+Print Assumptions C09_enabled_veto.
+
+(** ** The three clauses above, operation by operation (what the harness observes and the driver compares) *)
+(** [spec_op c o] is computed from the stack's shape and the leaves' answers alone (Forwarding/Spec.v); it makes a claim for
+    every operation except `max_level_hint` and `register_callsite` on non-linear stacks. *)
+Theorem C09_spec_op_sound : forall c o l, spec_op c o = Some l -> fst (run_op gen_tables (coll_obj gen_tables c) o) = l.
+Proof. exact spec_op_sound. Qed.
+Print Assumptions C09_spec_op_sound.
+
+Example C09_spec_op_nonvacuous :
+  let c := CLayered (SVec [SLeaf 2 unhinted; SLeaf 3 (beh_of [] [] [true; false] None 255 false)]) (CLayered (SLeaf 1 unhinted) (CLeaf 0 unhinted)) in
+  spec_op c (OEvent 1) = Some [(2, event_enabled, (1,0,0)); (3, event_enabled, (1,0,0))] /\
+  spec_op c (OEvent 0) = Some [(2, event_enabled, (0,0,0)); (3, event_enabled, (0,0,0)); (1, event_enabled, (0,0,0)); (0, event_enabled, (0,0,0));
+                               (0, event, (0,0,0)); (1, on_event, (0,0,0)); (2, on_event, (0,0,0)); (3, on_event, (0,0,0))].
+Proof. split; vm_compute; reflexivity. Qed.
+
+(** ** Wrappers are transparent: any nest, around any element, anywhere in any stack, for any workload *)
+(** Box, Box<dyn Subscribe>, Some, reload::Subscriber, a one-element Vec, an Identity paired on either side.
+    Side condition (known finding F19, refuted below): an Identity is not paired with something that is itself `None`-like. *)
+Theorem C09_wrappers_transparent : forall K ps x ops,
+  (existsb uses_id ps = true -> is_none (sub_obj gen_tables x) = false) ->
+  run_case gen_tables (cplug K (wrap_nest ps x)) ops = run_case gen_tables (cplug K x) ops.
+Proof. exact wrappers_transparent. Qed.
+Print Assumptions C09_wrappers_transparent.
+
+Example C09_wrappers_transparent_nonvacuous :
+  let K := CCUnder (SLeaf 3 unhinted) (CCHere (SCPairI (SLeaf 2 (hinted 2)) SHole) (CLeaf 0 unhinted)) in
+  let ps := [PW SwSome; PVec1; PIdOuter; PW SwReload; PW SwBoxDyn] in
+  (existsb uses_id ps = true -> is_none (sub_obj gen_tables (SLeaf 1 (hinted 4))) = false) /\
+  wrap_nest ps (SLeaf 1 unhinted) = SWrap SwSome (SVec [SPair SIdentity (SWrap SwReload (SWrap SwBoxDyn (SLeaf 1 unhinted)))]).
+Proof. split; [intros _; vm_compute; reflexivity|reflexivity]. Qed.
+
+(** Known finding F19: the side condition is needed.  rec[WARN].with(vec![None.and_then(Identity), L[TRACE]]) reports WARN,
+    rec[WARN].with(vec![None, L[TRACE]]) reports TRACE. *)
+Theorem C09_F19_refuted :
+  let K := CCHere (SCVec [] SHole [SLeaf 1 (hinted 5)]) (CLeaf 0 (hinted 2)) in
+  is_none (sub_obj gen_tables SNone) = true /\
+  run_case gen_tables (cplug K (wrap_nest [PIdOuter] SNone)) [OHint] <> run_case gen_tables (cplug K SNone) [OHint].
+Proof. exact F19_refuted. Qed.
+Print Assumptions C09_F19_refuted.
+
+(** Filter wrappers (Box<dyn Filter>, Arc<dyn Filter>, Some, reload), method by method through a probe layer. *)
+Theorem C09_filter_wrappers_transparent : forall K ws f ops,
+  run_case gen_tables (cplug K (SProbe (fwrap_nest ws f))) ops = run_case gen_tables (cplug K (SProbe f)) ops.
+Proof. exact filter_wrappers_transparent. Qed.
+Print Assumptions C09_filter_wrappers_transparent.
+
+(** Collector wrappers (Box<C>, Arc<C>) around any sub-stack, under any further layers. *)
+Theorem C09_collector_wrappers_transparent : forall K ws c ops,
+  run_case gen_tables (kplug K (cwrap_nest ws c)) ops = run_case gen_tables (kplug K c) ops.
+Proof. exact collector_wrappers_transparent. Qed.
+Print Assumptions C09_collector_wrappers_transparent.
+
+(** ** None / an empty Vec behaves as if absent *)
+(** For every absent subscriber [z] (`None`, `vec![]`, a Vec of such, inside any Box / Some / reload): as a layer anywhere,
+    as either half of a pair anywhere, as a Vec element anywhere, it changes no callback log and no answer of any operation
+    except possibly `max_level_hint` (finding F17, below); as the top layer it does not change that either. *)
+Theorem C09_absent_as_if_absent : forall z, absent z = true ->
+  (forall K c ops, coll_has_layer c = true -> forallb no_hint_op ops = true ->
+     run_case gen_tables (kplug K (CLayered z c)) ops = run_case gen_tables (kplug K c) ops) /\
+  (forall K c ops, forallb no_hint_op ops = true -> forallb no_drop_op ops = true ->
+     run_case gen_tables (kplug K (CLayered z c)) ops = run_case gen_tables (kplug K c) ops) /\
+  (forall K x ops, forallb no_hint_op ops = true ->
+     run_case gen_tables (cplug K (SPair z x)) ops = run_case gen_tables (cplug K x) ops /\
+     run_case gen_tables (cplug K (SPair x z)) ops = run_case gen_tables (cplug K x) ops) /\
+  (forall K pre post ops, forallb no_hint_op ops = true ->
+     run_case gen_tables (cplug K (SVec (pre ++ z :: post))) ops = run_case gen_tables (cplug K (SVec (pre ++ post))) ops) /\
+  (forall ws c ops, coll_has_layer c = true ->
+     run_case gen_tables (cwrap_nest ws (CLayered z c)) ops = run_case gen_tables (cwrap_nest ws c) ops).
+Proof. exact absent_as_if_absent. Qed.
+Print Assumptions C09_absent_as_if_absent.
+
+Theorem C09_none_absent : forall ws K c ops, coll_has_layer c = true -> forallb no_hint_op ops = true ->
+  run_case gen_tables (kplug K (CLayered (swraps ws SNone) c)) ops = run_case gen_tables (kplug K c) ops.
+Proof. exact none_absent. Qed.
+Print Assumptions C09_none_absent.
+
+(** F14 is repaired (178eca9): the empty Vec needs no exclusion any more. *)
+Theorem C09_empty_vec_absent : forall ws K c ops, coll_has_layer c = true -> forallb no_hint_op ops = true ->
+  run_case gen_tables (kplug K (CLayered (swraps ws (SVec [])) c)) ops = run_case gen_tables (kplug K c) ops.
+Proof. exact empty_vec_absent. Qed.
+Print Assumptions C09_empty_vec_absent.
+
+Theorem C09_none_empty_vec_absent_on_top : forall z ws c ops, (z = SNone \/ z = SVec []) -> coll_has_layer c = true ->
+  run_case gen_tables (cwrap_nest ws (CLayered z c)) ops = run_case gen_tables (cwrap_nest ws c) ops.
+Proof. exact none_empty_vec_absent_on_top. Qed.
+Print Assumptions C09_none_empty_vec_absent_on_top.
+
+Example C09_absent_nonvacuous :
+  let c := CLayered (SLeaf 1 (hinted 4)) (CLeaf 0 unhinted) in
+  let ops := [ORegisterCallsite 1; OEnabled 1; ONewSpan 0 1; OEvent 2; OTryClose 1; ODropSpan 1] in
+  coll_has_layer c = true /\ forallb no_hint_op ops = true /\
+  fst (nth 3 (snd (run_case gen_tables (kplug (KUnder (SLeaf 2 unhinted) KHole) (CLayered (SWrap SwBox (SVec [SNone])) c)) ops)) ([], RPoison))
+    = [(2, event_enabled, (2,0,0)); (1, event_enabled, (2,0,0)); (0, event_enabled, (2,0,0)); (0, event, (2,0,0)); (1, on_event, (2,0,0)); (2, on_event, (2,0,0))].
+Proof. repeat split; vm_compute; reflexivity. Qed.
+
+(** As a layer anywhere, `max_level_hint` included, unless some collector level underneath a further layer reports a
+    genuine OFF ([no_off]: the hypothesis that keeps finding F17's "more permissive" half out; its witness is the first
+    conjunct of [C09_F17_refuted]). *)
+Theorem C09_absent_layer_hint_unless_off : forall K z c ops, absent z = true -> coll_has_layer c = true -> no_off gen_tables K c ->
+  run_case gen_tables (kplug K (CLayered z c)) ops = run_case gen_tables (kplug K c) ops.
+Proof. exact absent_layer_hint. Qed.
+Print Assumptions C09_absent_layer_hint_unless_off.
+
+Example C09_absent_layer_hint_nonvacuous :
+  let K := KUnder (SLeaf 3 (hinted 2)) (KWrap CwArc KHole) in let c := CLayered (SLeaf 1 (hinted 4)) (CLeaf 0 unhinted) in
+  absent (SVec []) = true /\ coll_has_layer c = true /\ no_off gen_tables K c /\
+  snd (run_case gen_tables (kplug K (CLayered (SVec []) c)) [OHint]) = [([(3, max_level_hint, arg0); (1, max_level_hint, arg0); (0, max_level_hint, arg0)], RHint (Some 4))].
+Proof. repeat split; try (vm_compute; reflexivity). intro a. vm_compute. discriminate. Qed.
+
+(** Known finding F17: *below* another layer, a `None` / empty Vec does change `max_level_hint`, in both directions:
+    root(OFF).with(L2).with(None).with(L1) reports no hint instead of OFF, and
+    root.with(L1(TRACE).and_then(None)).with(L2(INFO)) reports INFO instead of TRACE (likewise with `vec![]`). *)
+Theorem C09_F17_refuted :
+  (let K := KUnder (SLeaf 1 unhinted) KHole in let c := CLayered (SLeaf 2 unhinted) (CLeaf 0 (hinted 0)) in
+   coll_has_layer c = true /\ ~ no_off gen_tables K c /\
+   run_case gen_tables (kplug K (CLayered SNone c)) [OHint] <> run_case gen_tables (kplug K c) [OHint]) /\
+  (let K := CCUnder (SLeaf 2 (hinted 3)) (CCHere SHole (CLeaf 0 unhinted)) in let x := SLeaf 1 (hinted 5) in
+   run_case gen_tables (cplug K (SPair SNone x)) [OHint] <> run_case gen_tables (cplug K x) [OHint]) /\
+  (let K := CCUnder (SLeaf 2 (hinted 3)) (CCHere SHole (CLeaf 0 unhinted)) in let x := SLeaf 1 (hinted 5) in
+   run_case gen_tables (cplug K (SPair (SVec []) x)) [OHint] <> run_case gen_tables (cplug K x) [OHint]).
+Proof. exact F17_refuted. Qed.
+Print Assumptions C09_F17_refuted.
